@@ -427,8 +427,19 @@ func (x *Exec) opCloseServer() {
 		return
 	}
 	x.w.closed = true
-	_ = x.w.srv.Close()
+	_ = x.w.srv.Close() // an error (e.g. a listener socket the application closed itself) is not judged
 	x.settle()
+	x.waitCallbacks()
+	for _, c := range x.w.clients {
+		if c.Stream && !c.Dead {
+			if !c.Conn.Peer().IsClosed() {
+				x.fail([]string{"C15"}, "control-connection-open-after-close", "Server.Close left the accepted control connection of client %d open (its read loop keeps running and can still allocate)", c.Idx)
+
+				return
+			}
+			c.Dead = true
+		}
+	}
 	if len(x.m.Allocs) > 0 {
 		x.St.inc("teardown:server-close-with-allocations")
 	}
@@ -481,6 +492,23 @@ func Run(sc *Script, verbose bool) (x *Exec, err error) {
 			continue
 		}
 		switch st.Op {
+		case "CloseListenerSocket":
+			// the application closes the UDP listening socket itself (Server.Close will then get an
+			// error for it); the allocations made through it go away as with Server.Close
+			if !x.w.srvSock.IsClosed() {
+				_ = x.w.srvSock.Close()
+				x.settle()
+				x.waitCallbacks()
+				for _, c := range x.w.clients {
+					if !c.Stream {
+						if x.m.remove(c.Idx) != nil {
+							x.St.inc("teardown:listener-socket-closed")
+						}
+						c.Dead = true
+					}
+				}
+				x.checkWire(x.observe(), nil, nil, nil, "listener socket closed by the application")
+			}
 		case "CloseControl":
 			x.opCloseControl(st)
 		case "Allocate":
